@@ -21,7 +21,7 @@ RULE = ("all directed graphs on 1 and 2 input object types with edge kind in {no
         "object fields: self via field / list field, alias form and flatten form, mutual A->B->A, 3-cycles, recursion under an "
         "inline fragment and through a union, every ordered pair (and some triples) of recursive positions {field, list field, list of "
         "lists, field one object down} inside one fragment, with nested payloads. Input type names in four styles (A, node_filter, "
-        "HTTPFilter, edgeInput) with and without normalization rust. Non-trivial = graph with >= 1 cycle; distinct by graph")
+        "HTTPFilter, edgeInput) with and without normalization rust and skip_serializing_none. Non-trivial = graph with >= 1 cycle; distinct by graph")
 
 KINDS = {"none": None, "T": lambda t: t, "T!": lambda t: NN(t), "[T]": lambda t: L(t), "[T!]!": lambda t: NN(L(NN(t)))}
 NULLABLE_KINDS = ["none", "T", "[T]"]
@@ -156,7 +156,7 @@ NAME_STYLES = [None, {"A": "node_filter", "B": "edge_filter", "C": "page_input",
                {"A": "nodeFilter", "B": "edgeInput", "C": "pageOpts", "D": "sortBy"}]
 
 
-def graph_case(cid, ns, edges, one, rng, fmt="sdl", style=0, rust=False):
+def graph_case(cid, ns, edges, one, rng, fmt="sdl", style=0, rust=False, skip=False):
     if NAME_STYLES[style]:
         m = NAME_STYLES[style]
         ns = [m[n] for n in ns]
@@ -168,7 +168,10 @@ def graph_case(cid, ns, edges, one, rng, fmt="sdl", style=0, rust=False):
         # only the first type is a variable: the others are reached through its fields only
         vs = vs[:1]
     doc = {"operations": [{"kind": "query", "name": "Q", "vars": vs, "sel": [["field", None, "x", None, None]]}], "fragments": []}
-    c = C.make_case(cid, s, doc, rng, options={"normalization": "rust"} if rust else {}, fmt=fmt)
+    gopts = {"normalization": "rust"} if rust else {}
+    if skip:
+        gopts["skip_none"] = True      # the indirection must not change which members are omitted
+    c = C.make_case(cid, s, doc, rng, options=gopts, fmt=fmt)
     c["graph"] = {"types": ns, "edges": {"%s->%s" % k: v for k, v in edges.items() if v != "none"}, "one_of": [n for n in ns if one[n]]}
     c["cyclic"] = has_cycle(ns, edges)
     c["needs_box"] = needs_indirection(ns, edges)
@@ -180,7 +183,7 @@ def graph_case(cid, ns, edges, one, rng, fmt="sdl", style=0, rust=False):
         except RecursionError:
             continue   # uninhabited (non-null cycle without a list): legal to declare, no value exists
         asg = {k: v for k, v in asg.items() if v is not None}
-        vecs.append({"id": "a%d" % ai, "kind": "vars", "target": "Q", "input": asg, "expect": {"variables": expected_variables(s, doc["operations"][0], asg, False)}})
+        vecs.append({"id": "a%d" % ai, "kind": "vars", "target": "Q", "input": asg, "expect": {"variables": expected_variables(s, doc["operations"][0], asg, skip)}})
     c["vectors"] = vecs
     return c
 
@@ -283,8 +286,8 @@ def main(run):
     rng = run.rng
     graphs = enumerate_graphs()
     run.exhaustive = True
-    # every graph once; the naming style of the types and the normalization option cycle with the index (8 combinations)
-    cases = [graph_case("g%d" % i, ns, e, one, rng, fmt="sdl" if i % 3 else "json", style=(i // 2) % 4, rust=(i % 2 == 1)) for i, (ns, e, one) in enumerate(graphs)]
+    # every graph once; the naming style of the types, normalization and skip_serializing_none cycle with the index (16 combinations)
+    cases = [graph_case("g%d" % i, ns, e, one, rng, fmt="sdl" if i % 3 else "json", style=(i // 2) % 4, rust=(i % 2 == 1), skip=((i // 8) % 2 == 1)) for i, (ns, e, one) in enumerate(graphs)]
     # random graphs on 3-4 types
     allk = list(KINDS) + list(EXTRA_KINDS)
     for i in range(run.size(120, 2400)):
@@ -297,7 +300,7 @@ def main(run):
                 if rng.random() < 0.4:
                     ks = [k for k in allk if not (one[a] and k.endswith("!"))]
                     edges[(a, b)] = rng.choice(ks)
-        cases.append(graph_case("r%d" % i, ns, edges, one, rng, fmt=rng.choice(["sdl", "json"]), style=rng.randrange(4), rust=rng.random() < 0.5))
+        cases.append(graph_case("r%d" % i, ns, edges, one, rng, fmt=rng.choice(["sdl", "json"]), style=rng.randrange(4), rust=rng.random() < 0.5, skip=rng.random() < 0.5))
     frs = fragment_patterns(rng)
     cases += frs
     cases += hazards.cases_for(run, "C12")
